@@ -154,7 +154,7 @@ def stage_kp(ctx, drv):
         e = json.loads(line)
         nacc += e.get("accepted", False)
         nkeys += sum(1 for k in e.get("keys", []) if k["built"])
-    mism, n1 = ctx.validate_events("Trace_KeyParams", tr, shards=16, stage="T:key/parameter round trips")
+    mism, n1 = ctx.validate_events("Trace_KeyParams", tr, shards=16 if ctx.thorough else 10, stage="T:key/parameter round trips")
     handle_mismatches(ctx, mism, kp_signature, slim_kp)
     n2 = 0
     ctx.stage("R:key/parameter round trips", records=n, accepted_by_constructor=nacc, keys_built=nkeys)
@@ -249,13 +249,13 @@ def stage_io(ctx, drv):
         handle_mismatches(ctx, mism, lambda m: "replay", slim_io)
         return True
     if ctx.thorough:
-        ctx.model_check("MC_KeysetIO", "MC_KeysetIO", stage="M:KeysetIO ids 0..2, <=2 keys, 2 prefixes, 5 materials, 2 keks, 3 ads")
-    ctx.model_check("MC_KeysetIO", "MC_KeysetIO_quick", stage="M:KeysetIO ids 0..1, <=2 keys, 5 materials, 2 keks, 3 ads")
+        ctx.model_check("MC_KeysetIO", "MC_KeysetIO", stage="M:KeysetIO ids 0..2, <=2 keys, 2 prefixes, 5 materials, 2 keks, 3 ads", workers=8)
+    ctx.model_check("MC_KeysetIO", "MC_KeysetIO_quick", stage="M:KeysetIO ids 0..1, <=2 keys, 5 materials, 2 keks, 3 ads", workers=4, heap="4g")
     hp, nh = plan_handles(ctx, "singles,pairs,mats,random", 100000 if ctx.thorough else 60, 1500 if ctx.thorough else 60)
     tr = os.path.join(ctx.scratch, "io.ndjson")
     r = ctx.run([drv, "-mode", "io", "-handles", hp, "-out", tr], timeout=2400)
     ctx.log("driver: %d handles x 16 writers x 16 readers executed in %.1fs" % (nh, r.wall))
-    mism, n = ctx.validate_events("Trace_KeysetIO", tr, shards=16, stage="T:keyset writer x reader matrix")
+    mism, n = ctx.validate_events("Trace_KeysetIO", tr, shards=16 if ctx.thorough else 6, stage="T:keyset writer x reader matrix")
     handle_mismatches(ctx, mism, io_signature, slim_io)
     ctx.cov["traces_validated_against_impl"] += nh
     nreads = ninter = 0
